@@ -207,7 +207,13 @@ def parallel(func, items: list, arg=None, nproc: int | None = None, chunk: int |
     else:
         ctx = mp.get_context("fork")
         with ctx.Pool(min(nproc, len(chunks))) as pool:
-            res = pool.map(_run_chunk, [(func, c, arg) for c in chunks])
+            # a worker that dies (or never returns: a library call that loops) would make map() wait for ever
+            try:
+                res = pool.map_async(_run_chunk, [(func, c, arg) for c in chunks]).get(
+                    timeout=int(os.environ.get("VERIF_WORKER_TIMEOUT", "5400")))
+            except mp.TimeoutError:
+                pool.terminate()
+                raise tlc.MachineryError(f"replay workers did not finish {func.__name__} in time (a worker died or a call never returned)")
     out = []
     for st, r in res:
         if st == "err":
